@@ -16,6 +16,10 @@ MODULES = {
     "C03": "vf.c03",
     "C04": "vf.c04",
     "C07": "vf.c07",
+    "C08": "vf.c08",
+    "C09": "vf.c09",
+    "C10": "vf.c10",
+    "C12": "vf.c12",
 }
 
 
